@@ -75,6 +75,9 @@ class Profile:
 # ---------------------------------------------------------------------------------------
 # Runtime matrix (C18, C08, C04)
 
+UNBIND = {"remove", "remove_entry", "swap_remove", "shift_remove", "clear", "retain", "drain", "pop", "take", "truncate", "split_off", "extract_if"}
+
+
 def cell(parent=(), own=(), notown=(), need=(), forbid=(), panics=False):
     return {"parent": set(parent), "own": set(own), "notown": set(notown), "need": set(need),
             "forbid": set(forbid), "panics": panics}
@@ -217,6 +220,9 @@ def check_cell(P, rep, rule, nm, m, fn, spec, trait, parent_field=None):
     for c in spec["forbid"]:
         if c in cn:
             problems.append("calls `%s` (the sibling lookup's helper)" % c)
+    # no layer operation ever ends a binding: bindings live until the layer itself is dropped
+    for c in sorted(cn & UNBIND):
+        problems.append("calls `%s`: a scope layer never removes a binding (a name stays bound until its layer ends)" % c)
     if spec["panics"] != pr.panics and spec["panics"]:
         problems.append("base case no longer diverges (unreachable!)")
     if pr.panics and not spec["panics"]:
